@@ -121,6 +121,8 @@ def edge_of_window(ctx, rng, n):
 
 
 def run(ctx):
+    from .. import wtests
+    wtests.run(ctx)
     install(ctx)
     rng = ctx.rng
     edge_of_window(ctx, rng, ctx.budget(6_000, 60_000))
@@ -130,6 +132,9 @@ def run(ctx):
     n = ctx.budget(150_000, 1_500_000)
     done = 0
     while done < n and ctx.alive():
+        if rng.random() < 0.002:
+            from .. import noise
+            noise.burst(ctx, rng, exclude=('stepper', 'legacy-stepper'))
         if rng.random() < 0.003:
             from plotink import ebb_calc as _ec
             G.failed_call(rng, rng.choice((_ec.max_rate_t3, _ec.rate_t3)), 4)
@@ -152,6 +157,7 @@ def run(ctx):
         ctx.need(cls, 100)
     ctx.need("monitor:max_rate_t3 evaluated", 50_000)
     ctx.need("oracle self-check (all ticks brute force)", 1000)
+    ctx.need("history: after calls to other library functions", 200)
     contracts.uninstall_all()
 
 
